@@ -318,6 +318,9 @@ fn scenario<C: MlsConfig>(rng: &mut Rng, mk: Mk<C>, out: &mut Out) {
             out.cover.insert(format!("eks-skip:{}", why.split(' ').take(4).collect::<Vec<_>>().join("-")));
         }
     }
+    if let Some(r) = crate::eks::extpub_row(w.group(0)) {
+        out.rows.push(r);
+    }
     let auth0 = auth(w.group(0));
     for i in 1..n {
         if w.members[i].group.is_none() {
